@@ -123,7 +123,7 @@ def main(ctx):
     cases = [c for c in cases if "reg" not in c]
     cyc = [c for c in cases if c["cyclic"]]
     acyc = [c for c in cases if not c["cyclic"]]
-    n_cyc, n_acyc, n_two = (200, 120, 260) if quick else (6000, len(acyc), len(two))
+    n_cyc, n_acyc, n_two = (200, 120, 260) if quick else (3000, len(acyc), len(two))
     chosen = rng.sample(cyc, min(n_cyc, len(cyc))) + rng.sample(acyc, min(n_acyc, len(acyc))) + \
         rng.sample(two, min(n_two, len(two)))
     if not quick and len(chosen) == len(cases) + len(two):
@@ -160,7 +160,7 @@ def main(ctx):
     variant("negative-upem", lambda mf: mf.update(upem=-1000))
 
     # ------------------------------------------------------------ seeded file-level mutations of fixtures
-    n_mut = 160 if quick else 3000
+    n_mut = 160 if quick else 1500
     for n in range(n_mut):
         rel = MUT_SOURCES[n % len(MUT_SOURCES)]
         d = ctx.path("mut", str(n), "x")[:-2]
